@@ -93,13 +93,17 @@ fn step_kind(s: &mut Mach, ins: &Instr, model: &mut Model, ctx: &mut RunCtx) -> 
             if let (Some(f), Some(d)) = (s.reg(*a), model.reg(*a)) {
                 let t = d.t();
                 for a_idx in 0..crate::tvl::pow3(n) {
-                    let args = (0..n).map(|v| {
+                    // documented: a variable that is not mentioned counts as unknown; every other
+                    // assignment leaves its unknown variables out instead of passing None
+                    let omit = a_idx % 2 == 1;
+                    let args = (0..n).filter_map(|v| {
                         let c = (a_idx / crate::tvl::pow3(v)) % 3;
-                        (v, match c {
-                            0 => Some(false),
-                            2 => Some(true),
-                            _ => None,
-                        })
+                        match c {
+                            0 => Some((v, Some(false))),
+                            2 => Some((v, Some(true))),
+                            _ if omit => None,
+                            _ => Some((v, None)),
+                        }
                     });
                     let got = match f.eval(args) {
                         Some(false) => 0u8,
